@@ -188,6 +188,31 @@ func init() {
 	specsFor["C15"] = c15Specs
 	checks["C15"] = func(c *Ctx) *Result {
 		r := runSpecs(c, c15Specs(c.Tier))
+		if r.Found == nil {
+			total := 0
+			salts := 4
+			if c.Tier == "thorough" {
+				salts = 16
+			}
+			for salt := 0; salt < salts && len(r.Raw) == 0; salt++ {
+				for _, cfg := range []Cfg{defaultCfg, {Fast: false, Cache: 1000}} {
+					n, fail := bigChangeSets(9+salt%6, cfg, salt)
+					total += n
+					if fail != "" {
+						if id := c.KF.MatchRaw(c.ID, fail); id != "" {
+							c.KF.NoteRaw(id, fail)
+							continue
+						}
+						rawViolation(c, r, fail, map[string]any{"cfg": cfg, "pattern": salt})
+						break
+					}
+				}
+			}
+			r.States += total
+			r.Transitions += total
+			r.Extra = map[string]any{"large_scenario_supplement": map[string]any{"patterns": salts, "ranges_checked": total,
+				"note": "fixed scenarios (not exhaustive): 24 keys, 9-14 versions with inserts, updates (changed and unchanged value), removals, set-then-remove, remove-then-set, versions without writes and a version that empties the tree; same change-set oracle as the exploration, before and after a prune"}}
+		}
 		r.Assumptions = []string{
 			"whether endVersion is inclusive is not asserted: every retained v in [start, min(end,latest+1)) must be delivered, nothing outside [start,end]",
 			"change sets of versions whose predecessor is not retained are only checked for order/uniqueness (outside the statement), except the first version ever committed",
